@@ -38,6 +38,9 @@ func init() {
 
 var c13letters = []string{"a", "b", "c", "d", "e"}
 
+// pairs of different lines that collide under common 32-bit hashes (CRC-32, FNV-1, FNV-1a, Java hashCode)
+var c13collide = []string{"plumless", "buckeroo", "costarring", "liquid", "declinate", "macallums", "Aa", "BB"}
+
 func linesOf(code []int) []string {
 	out := make([]string, len(code))
 	for i, v := range code {
@@ -155,6 +158,16 @@ func c13check(c *fw.Ctx, left, right []string, n int) (nchunks int, merged, exce
 		merged = len(d.Chunks) < nchunks
 		if !equalStrings(left, l0) || !equalStrings(right, r0) {
 			fail("the inputs were modified")
+			return
+		}
+		if n >= 1 && n <= 3 && len(left)%3 == 0 {
+			// a second AddContext/Unify pass on the same Diff: the width clause is
+			// not applied (the statement bounds one pass), but every chunk must
+			// still be a correct patch, chunks disjoint, and Left must become Right
+			stage = fmt.Sprintf("AddContext(%d).Unify().AddContext(%d).Unify()", n, n)
+			d.AddContext(n).Unify()
+			c.Step()
+			checkChunks(1<<30, true, true)
 		}
 	})
 	if !ok {
@@ -245,6 +258,15 @@ func runC13(c *fw.Ctx) {
 			}
 		}
 		c.Add("aliased_input_triples", n64)
+		for i := 0; i < len(c13collide); i += 2 {
+			a, b := c13collide[i], c13collide[i+1]
+			for n := 0; n <= 2; n++ {
+				c13check(c, []string{"x", a, "y"}, []string{"x", b, "y"}, n)
+				c13check(c, []string{a, b, a}, []string{b, a}, n)
+				c13check(c, []string{a}, []string{b}, n)
+				n64 += 3
+			}
+		}
 		for n := 0; n <= 3; n++ {
 			c13check(c, nil, nil, n)
 			c13check(c, nil, []string{"a", "b"}, n)
